@@ -10,6 +10,7 @@ RULE = ("schemas as data: 1-3 variables, 1-3 parameters (variables, nested compo
         "some with wildcards, some over-applied; the re-check order is creation order on both sides (hook); "
         "non-trivial = at least one application step was reached and the schema has a variable in a parameter; distinct by (language, schema, args)")
 ASSUMPTIONS = ["constraint alternatives are given as lists (ordered)", "re-check order fixed to creation order via the TRANSFORGE_VERIF hook"]
+INVARIANTS = True   # runner.run_invariants: hypotheses of the engine theorems evaluated on the model's runs of this check's infer lines
 TRUSTED = ["harness/infer.py: rendering of schema ASTs to Python lambdas and canonical rendering of results",
            "harness/refsub.py (oracle)"]
 
